@@ -78,7 +78,7 @@ pub async fn run_conc(cfg: RunCfg) -> RunResult {
         }
         let out = guarded(async {
             r.do_op(&op).await;
-            let k = crate::e1::op_sig_kind(&op, &r.st);
+            let k = format!("{}{}", crate::e1::op_sig_kind(&op, &r.st), r.history_tags(&op, &[]));
             r.o_scan(crate::e1::prop_for_op(&op), &k).await;
         })
         .await;
@@ -157,7 +157,7 @@ pub async fn run_conc(cfg: RunCfg) -> RunResult {
             tasks.push(tokio::spawn(async move {
                 let res = guarded(async {
                     let mut ds = ctx.open_version(rv).await.map_err(|e| format!("open: {}", e))?;
-                    with_deadline(7200, "concurrent op", exec_op(&ctx, &mut ds, &st_r, &op)).await.map_err(|e| e.to_string())?;
+                    with_deadline(2_592_000, "concurrent op", exec_op(&ctx, &mut ds, &st_r, &op)).await.map_err(|e| e.to_string())?;
                     Ok::<u64, String>(ds.version().version)
                 })
                 .await;
@@ -403,7 +403,18 @@ async fn check_round(r: &mut Runner, base_v: u64, outcomes: &[PartyOutcome], fau
             None => {
                 let (stt, who) = &expect_states[0];
                 let prop = if c04_msg.is_some() { "C04" } else { "C03" };
-                let kind_s = claimed.get(&v).map(|o| crate::e1::op_sig_kind(&o.op, &tag_state(r, o, outcomes, &cur))).unwrap_or_else(|| "unclaimed".to_string());
+                let kind_s = claimed.get(&v).map(|o| crate::e1::op_sig_kind(&o.op, &tag_state(r, o, outcomes, &cur))).unwrap_or_else(|| {
+                    // unclaimed version: attribute to the failed party whose operation fits the transaction
+                    let cands: Vec<&PartyOutcome> = outcomes.iter().filter(|o| o.result.is_err() && txn_op_matches(&txn_op, &o.op)).collect();
+                    if faults_on && cands.len() == 1 {
+                        format!("{}:unclaimed", crate::e1::op_sig_kind(&cands[0].op, &tag_state(r, cands[0], outcomes, &cur)))
+                    } else {
+                        "unclaimed".to_string()
+                    }
+                });
+                let extra: Vec<String> = outcomes.iter().filter_map(|p| if let Op::CreateIndex { col, .. } = &p.op { Some(col.clone()) } else { None }).collect();
+                let tags = claimed.get(&v).map(|o| r.history_tags(&o.op, &extra)).unwrap_or_default();
+                let kind_s = format!("{}{}", kind_s, tags);
                 let kind = kind_s.as_str();
                 let who = &format!("{}{}", who, c04_msg.as_ref().map(|m| format!("; at its own read version: {}", m)).unwrap_or_default());
                 r.res.violate(prop, "O-serial", &format!("serial-replay-mismatch:{}", kind), step, format!("version {} ({}): {}", v, who, diff_rows(&stt.rows, &got)));
@@ -428,6 +439,8 @@ async fn check_round(r: &mut Runner, base_v: u64, outcomes: &[PartyOutcome], fau
 /// another party of the round creates (a retry may re-execute after that index exists).
 fn tag_state(r: &Runner, o: &PartyOutcome, outcomes: &[PartyOutcome], cur: &TableState) -> TableState {
     let mut st = r.history.get(&o.read_version).cloned().unwrap_or_else(|| cur.clone());
+    // a retry may re-execute at any later version: indices that exist by then count as well
+    st.indices.extend(cur.indices.iter().cloned());
     for p in outcomes.iter() {
         if let Op::CreateIndex { col, kind, name, .. } = &p.op {
             st.indices.push(ModelIndex { name: name.clone(), column: col.clone(), kind: format!("{:?}", kind) });
